@@ -17,7 +17,14 @@ A route is a nested tuple:
   ("T", r)                            str(r) is called, then r is used
   ("H", combine?, [r…])               Style.chain(*rs) / Style.combine(rs)
   ("B", r)                            r.background_style
-colorarg: None | ("S", text) | ("C", Color);  color: None | Color
+  ("K", [r | None …])                 Style.pick_first(*values)   (the values are built left to right first)
+  ("M", r, [r…])                      sum([r…], start)            (start a Style; there is no Style.__radd__)
+colorarg: None | ("S", text) | ("C", color);  color: None | Color | a colour constructor call, evaluated by
+`mk_color` on the real rich and by the model on the Lean side:
+  ("ansi", n)        Color.from_ansi(n)
+  ("trip", r, g, b)  Color.from_triplet(ColorTriplet(r, g, b))
+  ("rgb", r4, g4, b4) Color.from_rgb(r4 / 4, g4 / 4, b4 / 4)   (floats; int() truncates)
+  ("default",)       Color.default()
 """
 from core import enc_str
 
@@ -28,9 +35,50 @@ def enc_optstr(s):
     return "-" if s is None else "=" + enc_str(s)
 
 
+def is_ctor(c):
+    """A colour constructor call (see the module docstring) rather than a Color value."""
+    return isinstance(c, tuple) and len(c) >= 1 and c[0] in ("ansi", "trip", "rgb", "default") and not hasattr(c, "_fields")
+
+
+def mk_color(c):
+    """Evaluate a colour (None | Color | constructor call) on the real rich."""
+    if c is None or not is_ctor(c):
+        return c
+    from rich.color import Color
+    from rich.color_triplet import ColorTriplet
+
+    if c[0] == "ansi":
+        return Color.from_ansi(c[1])
+    if c[0] == "trip":
+        return Color.from_triplet(ColorTriplet(c[1], c[2], c[3]))
+    if c[0] == "rgb":
+        return Color.from_rgb(c[1] / 4, c[2] / 4, c[3] / 4)
+    return Color.default()
+
+
+def show_color(c):
+    if c is None or not is_ctor(c):
+        return repr(c)
+    if c[0] == "ansi":
+        return f"Color.from_ansi({c[1]})"
+    if c[0] == "trip":
+        return f"Color.from_triplet(ColorTriplet({c[1]}, {c[2]}, {c[3]}))"
+    if c[0] == "rgb":
+        return f"Color.from_rgb({c[1] / 4}, {c[2] / 4}, {c[3] / 4})"
+    return "Color.default()"
+
+
 def enc_color(c):
     if c is None:
         return "-"
+    if is_ctor(c):
+        if c[0] == "ansi":
+            return f"@A{c[1]}"
+        if c[0] == "trip":
+            return f"@T{c[1]}.{c[2]}.{c[3]}"
+        if c[0] == "rgb":
+            return f"@R{c[1]}.{c[2]}.{c[3]}"
+        return "@D"
     num = "-" if c.number is None else str(int(c.number))
     trip = "-" if c.triplet is None else ".".join(str(int(x)) for x in c.triplet)
     return f"{enc_str(c.name)}/{int(c.type)}/{num}/{trip}"
@@ -78,6 +126,7 @@ def enc_state(s):
         + "|a" + "".join(enc_tri(getattr(s, a)) for a in ATTRS)
         + "|h" + ("1" if hash(s) == fields_hash(s) else "0")
         + "|w" + ("1" if wf(s) else "0")
+        + "|t" + ("1" if s.transparent_background else "0")
     )
 
 
@@ -131,6 +180,18 @@ def enc_route(r):
             out.extend(["H", str(len(r[2]))])
             for x in r[2]:
                 go(x)
+        elif t == "K":
+            out.extend(["K", str(len(r[1]))])
+            for x in r[1]:
+                if x is None:
+                    out.append("-")
+                else:
+                    go(x)
+        elif t == "M":
+            out.extend(["M", str(len(r[2]))])
+            go(r[1])
+            for x in r[2]:
+                go(x)
         else:
             raise ValueError(r)
 
@@ -139,7 +200,7 @@ def enc_route(r):
 
 
 def _arg(a):
-    return None if a is None else a[1]
+    return None if a is None else (mk_color(a[1]) if a[0] == "C" else a[1])
 
 
 def build(r):
@@ -153,9 +214,10 @@ def build(r):
         kw = {name: v for name, v in zip(ATTRS, r[3]) if v is not None}
         return Style(color=_arg(r[1]), bgcolor=_arg(r[2]), link=r[4], **kw)
     if t == "F":
-        return Style.from_color(r[1], r[2])
+        return Style.from_color(mk_color(r[1]), mk_color(r[2]))
     if t == "P":
-        return Style.parse.__wrapped__(Style, r[1])
+        raw = getattr(Style.parse, "__wrapped__", None)  # bypass the lru_cache: a fresh object every time
+        return raw(Style, r[1]) if raw is not None else Style.parse(r[1])
     if t == "A":
         a = build(r[1])
         b = build(r[2])
@@ -177,6 +239,12 @@ def build(r):
         return Style.combine(ss) if r[1] else Style.chain(*ss)
     if t == "B":
         return build(r[1]).background_style
+    if t == "K":
+        vals = [None if x is None else build(x) for x in r[1]]
+        return Style.pick_first(*vals)
+    if t == "M":
+        start = build(r[1])
+        return sum([build(x) for x in r[2]], start)
     raise ValueError(r)
 
 
@@ -188,15 +256,15 @@ def show(r):
     if t == "I":
         parts = []
         if r[1] is not None:
-            parts.append(f"color={r[1][1]!r}")
+            parts.append("color=" + (show_color(r[1][1]) if r[1][0] == "C" else repr(r[1][1])))
         if r[2] is not None:
-            parts.append(f"bgcolor={r[2][1]!r}")
+            parts.append("bgcolor=" + (show_color(r[2][1]) if r[2][0] == "C" else repr(r[2][1])))
         parts += [f"{n}={v}" for n, v in zip(ATTRS, r[3]) if v is not None]
         if r[4] is not None:
             parts.append(f"link={r[4]!r}")
         return "Style(" + ", ".join(parts) + ")"
     if t == "F":
-        return f"Style.from_color({r[1]!r}, {r[2]!r})"
+        return f"Style.from_color({show_color(r[1])}, {show_color(r[2])})"
     if t == "P":
         return f"Style.parse({r[1]!r})"
     if t == "A":
@@ -215,4 +283,8 @@ def show(r):
         return ("Style.combine([" if r[1] else "Style.chain(*[") + ", ".join(show(x) for x in r[2]) + "])"
     if t == "B":
         return show(r[1]) + ".background_style"
+    if t == "K":
+        return "Style.pick_first(" + ", ".join("None" if x is None else show(x) for x in r[1]) + ")"
+    if t == "M":
+        return "sum([" + ", ".join(show(x) for x in r[2]) + "], " + show(r[1]) + ")"
     raise ValueError(r)
